@@ -113,6 +113,23 @@ def forward (handler : σ → Event → σ × List Event) (lp : LPState σ) (m :
   let (s', evs) := handler lp.st e
   ({ lp with st := s', hist := lp.hist ++ outs.map Entry.sent ++ [.past m], bound := some e.t }, evs)
 
+/-- the straggler test of `process_msg`:
+`lp->p.bound >= msg->dest_t && msg_is_before(msg, array_peek(lp->p.p_msgs))` -/
+def isStraggler (look : Nat → Msg) (lp : LPState σ) (me : Msg) : Bool :=
+  match lp.bound, lp.hist.getLast? with
+  | some b, some last => decide (b ≥ me.destT) && isBefore me (look last.msg)
+  | _, _ => false
+
+/-- `process_msg` for an ordinary (non-anti) message `m` with content/flags `me`: straggler handling,
+then forward execution. `none`: the checkpoint-log search would underflow. -/
+def processPlain (handler : σ → Event → σ × List Event) (ev : Nat → Event) (look : Nat → Msg)
+    (lp : LPState σ) (m : Nat) (me : Msg) (outs : List Nat) : Option (LPState σ × List Event) :=
+  if isStraggler look lp me then
+    match rollback handler ev lp (matchStraggler look lp.hist me) with
+    | some o => some (forward handler o.lp m (ev m) outs)
+    | none => none
+  else some (forward handler lp m (ev m) outs)
+
 /-- `model_allocator_checkpoint_take(ref_i = count(p_msgs))` -/
 def checkpoint (lp : LPState σ) : LPState σ :=
   { lp with logs := lp.logs ++ [(lp.hist.length, lp.st)] }
